@@ -1050,16 +1050,28 @@ class ValueList(Value):
             result.addItem(item)
         return result
 
+    def entryPairs(self, kind):
+        pairs = []
+        for entry in self.value:
+            if not entry.isList() or len(entry.value) < 2:
+                raise CklRuntimeError(
+                    ValueString("ERROR"),
+                    "Cannot convert to " + kind
+                    + ": expected a list of [key, value] pairs",
+                )
+            pairs.append((entry.value[0], entry.value[1]))
+        return pairs
+
     def asMap(self):
         result = ValueMap()
-        for entry in self.value:
-            result.addItem(entry.value[0], entry.value[1])
+        for key, value in self.entryPairs("map"):
+            result.addItem(key, value)
         return result
 
     def asObject(self):
         result = ValueObject()
-        for entry in self.value:
-            result.addItem(entry.value[0].asString().value, entry.value[1])
+        for key, value in self.entryPairs("object"):
+            result.addItem(key.asString().value, value)
         return result
 
     def isList(self):
